@@ -739,6 +739,12 @@ def discharge(label, goal, hyps, budget, tier, defs=None):
         if v2 == 'sat':
             # counter-model needed from z3 for replay; keep trying a little with a different tactic
             out['cvc5'] = 'sat'
+        else:
+            # both back ends ran out of time: one more attempt with a larger budget, so that a loaded machine does not
+            # turn a proof that normally takes a few seconds into "undecided"
+            v3, model3, dt3, solver3, who3 = backend.check(hyps, z3.Not(f), 4 * budget)
+            if v3 != 'unknown':
+                v, model, solver, who = v3, model3, solver3, who3 + '(retry)'
     out.update(verdict=v, backend=who, s=round(time.time() - t0, 4))
     if v == 'sat':
         out['model'] = model
